@@ -53,6 +53,10 @@ CHECKS = {
    technique="explicit-state breadth-first search over single-threaded interleavings of open-reader / close-reader / committing and rolled-back writers on the real library; every open reader fully re-dumped after every action and compared with the state recorded when it was opened",
    text="All action sequences to the stated depth over {open reader (up to k open), close reader i, commit j, drop j} with a page-reusing update/delete menu: after every action every long-lived read transaction must still dump exactly the state committed when it began (a consistent newer state is a violation here). Unmapped database memory is replaced by inaccessible pages so a stale pointer faults deterministically.",
    note="Trusted: refmodel; the file is pre-sized because growing it while the same thread holds a reader self-deadlocks by design (documented)."),
+ "C10": dict(engine="seqx", cat="model_checking", ref="DESIGN.md §2 C10",
+   technique="explicit-state closure search: complete reachable state graph of small cyclic workloads on the real library, keyed by a digest without absolute transaction ids (fixpoint = bounded page high-water mark for all infinite runs over that alphabet), plus long deterministic laps",
+   text="For each small cyclic workload (fixed- and two-size overwrites, delete/re-insert, bucket delete/recreate, an overflow value coming and going, reopen, one reader pinned across up to three commits) the search runs until no new state appears; the maximum page high-water mark over the closed set is a bound for every infinite run. Larger workloads run as deterministic laps of 2 000 / 20 000 transactions with plateau, reopen and pinned-reader rules.",
+   note="Trusted: the relative digest is sound (argument in DESIGN.md; merged pairs across different transaction ids are cross-checked by comparing all one-step successors); fileck reads the high-water mark."),
 }
 
 NA = {}
